@@ -366,6 +366,10 @@ class Interp:
         b = self.lib.builtin(name)
         if b is not None:
             return b
+        import builtins as _bi
+        if hasattr(_bi, name):
+            # a real python builtin the engine has no model for: undecided, never a NameError of the program
+            raise Unsupported('builtin %s is not modelled' % name)
         self.ctx.raise_exc('NameError', "name '%s' is not defined" % name)
 
     # ------------------------------------------------------------------ attributes
